@@ -53,6 +53,10 @@ type Case struct {
 	Size   uint64 `json:"size"`
 	Global int    `json:"global"` // kind of the disk behind the global wrappers (0..3, see kinds)
 	Steps  []Step `json:"steps"`
+	// Prior: length in bytes of an all-zero image that exists before the file-backed disks are
+	// opened (-1 / absent in old replays = 0 = none). An all-zero prior image of any length is the
+	// same disk as a fresh one (seeded change C09-3: a partly backed last block).
+	Prior int `json:"prior,omitempty"`
 }
 
 var kinds = []string{"disk.MemDisk", "disk.FileDisk", "async_disk.MemDisk", "async_disk.FileDisk"}
@@ -121,7 +125,7 @@ var fileCounter int
 
 type infraError struct{ msg string }
 
-func open(kind int, size uint64, name string) (*system, *infraError) {
+func open(kind int, size uint64, name string, prior int) (*system, *infraError) {
 	s := &system{name: name, arena: make([]byte, arenaLen)}
 	switch kind {
 	case 0:
@@ -133,6 +137,11 @@ func open(kind int, size uint64, name string) (*system, *infraError) {
 		fileCounter++
 		s.path = filepath.Join(ev.Scratch(), fmt.Sprintf("c09-%d.img", fileCounter))
 		os.Remove(s.path)
+		if prior > 0 {
+			if err := os.WriteFile(s.path, make([]byte, prior), 0o644); err != nil {
+				return nil, &infraError{"cannot create the prior image: " + err.Error()}
+			}
+		}
 		if kind == 1 {
 			d, err := disk.NewFileDisk(s.path, size)
 			if err != nil {
@@ -199,13 +208,13 @@ func runCase(c Case) (msg string, infra string) {
 		disk.Init(nil)
 	}()
 	for k := 0; k < 4; k++ {
-		s, ie := open(k, c.Size, kinds[k])
+		s, ie := open(k, c.Size, kinds[k], c.Prior)
 		if ie != nil {
 			return "", ie.msg
 		}
 		systems = append(systems, s)
 	}
-	g, ie := open(c.Global, c.Size, "global wrappers over "+kinds[c.Global])
+	g, ie := open(c.Global, c.Size, "global wrappers over "+kinds[c.Global], c.Prior)
 	if ie != nil {
 		return "", ie.msg
 	}
@@ -385,6 +394,14 @@ func genCase(t *rapid.T) Case {
 		c.Size = uint64(rapid.IntRange(3, 48).Draw(t, "size"))
 	}
 	c.Global = rapid.IntRange(0, 3).Draw(t, "global")
+	if rapid.IntRange(0, 2).Draw(t, "hasprior") == 0 && c.Size > 0 {
+		// an existing all-zero image: shorter, exact, longer, and ending inside a block
+		total := int(c.Size) * bs
+		c.Prior = rapid.SampledFrom([]int{1, bs - 1, bs, bs + 1, total - bs + 1, total - 1, total, total + 1, total + bs, total - bs/2}).Draw(t, "prior")
+		if c.Prior < 0 {
+			c.Prior = 0
+		}
+	}
 	n := rapid.IntRange(1, 60).Draw(t, "nsteps")
 	var written []uint64
 	for i := 0; i < n; i++ {
